@@ -180,7 +180,7 @@ pub fn soundness_stage<C: Circuit<F>>(
 ) {
     let prop = &opts.property;
     let positions = pick_positions(n_in, exp.len(), opts.edit_positions, rng);
-    let mut confirm = |tables: &mut Tables<F>, pos: usize, tv: F, changed: &BTreeMap<(usize, usize), F>, nodes: u64, kind: &str, rep: &mut Report| {
+    let confirm = |tables: &mut Tables<F>, pos: usize, tv: F, changed: &BTreeMap<(usize, usize), F>, nodes: u64, kind: &str, rep: &mut Report| {
         let mut target_pi = exp.to_vec();
         target_pi[pos] = tv;
         let reference_ok = tables.violations(1).is_empty();
